@@ -58,6 +58,8 @@ pub enum Case {
     },
     /// 2^32+1 byte message through an encoder that only reserves (never touches) the bytes
     EncodeHuge { server: bool, pre: u8, pend_before: u8 },
+    /// the codec's encoder refuses one message after having written part of it (`svc::ENCODER_REFUSES`)
+    EncoderRefuses { server: bool, pre: u8, pend_before: u8 },
     /// limits configured on generated client/server (plumbing)
     PlumbedServer { limit: usize, delta: i64, encode_side: bool, #[serde(default)] sized: bool, #[serde(default)] stream: bool },
     PlumbedClient { limit: usize, delta: i64, encode_side: bool, #[serde(default)] via_clone: bool, #[serde(default)] other_limit: Option<usize>, #[serde(default)] stream: bool },
@@ -391,6 +393,30 @@ fn run_encode_huge(server: bool, pre: u8, pend_before: u8, o: &mut Outcome) -> R
     judge_encode_failure(&out, server, &expect, None, Code::ResourceExhausted, "4GiB")
 }
 
+/// An encoder error is an outgoing message that cannot be sent: everything before it is delivered, nothing of it
+/// (not even what the encoder had already written) and nothing after it.
+fn run_encoder_refuses(server: bool, pre: u8, pend_before: u8, o: &mut Outcome) -> Result<(), Failure> {
+    o.label("encoder_refuses_a_message");
+    o.nontrivial = true;
+    let mut steps = vec![];
+    let mut expect = vec![];
+    for i in 0..pre {
+        let p = vec![i + 1; 9 + i as usize];
+        expect.push(p.clone());
+        steps.push(SrcStep::Item(p));
+    }
+    for _ in 0..pend_before {
+        steps.push(SrcStep::Pending);
+    }
+    let mut bad = crate::svc::ENCODER_REFUSES.to_vec();
+    bad.extend_from_slice(b" payload");
+    steps.push(SrcStep::Item(bad));
+    steps.push(SrcStep::Item(b"post".to_vec()));
+    let role = if server { Role::Server } else { Role::Client };
+    let out = drive_encode(RawCodec::default().encoder(), steps, role, None, false, None, 256, if server { 3 } else { 0 });
+    judge_encode_failure(&out, server, &expect, None, Code::Internal, "encoder-refuses")
+}
+
 fn run_plumbed_server(limit: usize, delta: i64, encode_side: bool, sized: bool, stream: bool, o: &mut Outcome) -> Result<(), Failure> {
     o.label("plumbed_generated_server");
     o.nontrivial = true;
@@ -420,8 +446,16 @@ fn run_plumbed_server(limit: usize, delta: i64, encode_side: bool, sized: bool, 
             ensure!(st.as_ref().map(|s| s.code()) == Some(Code::Ok), "C06/encoding-limit-too-strict", "server max_encoding_message_size({limit}) with a {len}-byte response: status {:?}", st.map(|s| s.code()));
         }
     } else {
-        let sh = Shared::new(vec![HandlerScript { msgs: vec![RespMsg { data: Blob::of(b"r"), pend: 0, delay_ms: 0 }], ..Default::default() }]);
-        let mut svc = vt::raw_server::RawServer::new(sh.clone()).max_decoding_message_size(limit).max_encoding_message_size(other);
+        // in a third of the probes only the decoding limit is configured and the handler answers with more than that:
+        // a receive limit says nothing about what may be sent
+        let only_decoding = limit % 3 == 1 && limit < 60_000;
+        o.label_if(only_decoding, "plumbed_server_only_decoding_limit_large_response");
+        let resp_len = if only_decoding { limit + 100 } else { 1 };
+        let sh = Shared::new(vec![HandlerScript { msgs: vec![RespMsg { data: Blob::Rnd(resp_len as u32, 11), pend: 0, delay_ms: 0 }], ..Default::default() }]);
+        let mut svc = vt::raw_server::RawServer::new(sh.clone()).max_decoding_message_size(limit);
+        if !only_decoding {
+            svc = svc.max_encoding_message_size(other);
+        }
         let mut body = ScriptBody::new(vec![BodyStep::Data(Bytes::from(wire::frame(0, &payload_of(len, 3))))]);
         // a peer that announces the size of its body (content-length, or an in-process `Full` body)
         body.sized = sized;
@@ -440,6 +474,9 @@ fn run_plumbed_server(limit: usize, delta: i64, encode_side: bool, sized: bool, 
                 ensure!(got == 0 && err.as_ref().map(|e| e.0) == Some(Code::OutOfRange), "C06/decoding-limit-not-plumbed", "server max_decoding_message_size({limit}) on {path4} with a {len}-byte request message: the handler read {got} message(s), stream error {err:?}");
             } else {
                 ensure!(got == 1 && err.is_none(), "C06/decoding-limit-too-strict", "server max_decoding_message_size({limit}) on {path4} with a {len}-byte request message: the handler read {got} message(s), stream error {err:?}");
+                if only_decoding {
+                    ensure!(st.as_ref().map(|s| s.code()) == Some(Code::Ok), "C06/receive-limit-applied-to-responses", "only max_decoding_message_size({limit}) is configured, the handler's {resp_len}-byte response ended as {:?}", st.map(|s| (s.code(), s.message().to_string())));
+                }
             }
             return Ok(());
         }
@@ -447,7 +484,7 @@ fn run_plumbed_server(limit: usize, delta: i64, encode_side: bool, sized: bool, 
             ensure!(st.as_ref().map(|s| s.code()) == Some(Code::OutOfRange), "C06/decoding-limit-not-plumbed", "server max_decoding_message_size({limit}) with a {len}-byte request: status {:?}", st.map(|s| s.code()));
             ensure!(!entered, "C06/handler-ran-for-oversize-request", "handler ran although the request message was over the limit");
         } else {
-            ensure!(st.as_ref().map(|s| s.code()) == Some(Code::Ok) && entered, "C06/decoding-limit-too-strict", "server max_decoding_message_size({limit}) with a {len}-byte request: status {:?}", st.map(|s| s.code()));
+            ensure!(st.as_ref().map(|s| s.code()) == Some(Code::Ok) && entered, if only_decoding { "C06/receive-limit-applied-to-responses" } else { "C06/decoding-limit-too-strict" }, "server max_decoding_message_size({limit}) with a {len}-byte request (response {resp_len} bytes): status {:?}", st.map(|s| (s.code(), s.message().to_string())));
         }
     }
     Ok(())
@@ -457,6 +494,9 @@ fn run_plumbed_client(limit: usize, delta: i64, encode_side: bool, via_clone: bo
     o.label("plumbed_generated_client");
     o.nontrivial = true;
     let len = (limit as i64 + delta).max(0) as usize;
+    // every fifth probe configures a limit beyond 4 GiB (2^32 + L): nothing of this size is over it
+    let limit = if limit % 5 == 0 { (1usize << 32) + limit } else { limit };
+    o.label_if(limit > u32::MAX as usize, "plumbed_client_limit_over_4GiB");
     let over = len > limit;
     let resp_payload = if encode_side { b"r".to_vec() } else { payload_of(len, 9) };
     let rp = resp_payload.clone();
@@ -519,6 +559,7 @@ pub fn run(c: &Case, o: &mut Outcome) -> Result<(), Failure> {
             run_encode(*server, *limit, *buffer_size, *yield_threshold, pre, *over_by, *post, src_pend, *enc, o)
         }
         Case::EncodeHuge { server, pre, pend_before } => run_encode_huge(*server, *pre, *pend_before, o),
+        Case::EncoderRefuses { server, pre, pend_before } => run_encoder_refuses(*server, *pre, *pend_before, o),
         Case::PlumbedServer { limit, delta, encode_side, sized, stream } => run_plumbed_server(*limit, *delta, *encode_side, *sized, *stream, o),
         Case::PlumbedClient { limit, delta, encode_side, via_clone, other_limit, stream } => run_plumbed_client(*limit, *delta, *encode_side, *via_clone, *other_limit, *stream, o),
     }
@@ -554,6 +595,7 @@ impl Prop for C06 {
         for server in [true, false] {
             for (pre, pend) in [(0u8, 0u8), (1, 0), (2, 0), (1, 1)] {
                 v.push(Case::EncodeHuge { server, pre, pend_before: pend });
+                v.push(Case::EncoderRefuses { server, pre, pend_before: pend });
             }
         }
         // exact boundaries at the default limit, with payload present
